@@ -252,6 +252,13 @@ func checkC04(w *World, r *Report) {
 	n2(w, r)
 	n3(w, r)
 	n4(w, r)
+	// N-8: a contract transaction that fails leaves nothing behind in the wrapper:
+	// what it synchronised in is forgotten (revert to the pre-transaction snapshot)
+	// and written back (Finish) before the next transaction, or a later write-back
+	// restores a stale nonce (C05 A-4)
+	if r.importObs(w, func(t *Report) { a4(w, t) }, "A-4", "N-8") < 2 {
+		r.Undecided("N-8", "evm-failure", "the EVM failure-handling rules (C05 A-4) matched fewer than 2 constructs")
+	}
 	r.Floor("N-1", 4, "equality guard and its placement")
 	r.Floor("N-2", 5, "writers and callers of the nonce primitives")
 	r.Floor("N-3", 18, "decision table rows")
